@@ -24,6 +24,15 @@ Two models, two correspondence lemmas per operator sequence:
    rng.random() as the candidate index it selects in worst_removal, the iteration order of the Python set `unassigned`
    (logged by a set subclass), n_remove (float arithmetic on `degree`).  A disagreement only here means a heuristic
    (cost ranking, feasibility test, tie-break) changed while the bookkeeping model still agrees.
+
+Round-2 families (HARDENING.md): A - states built / re-built with the public VRPState dataclass (no distance matrix), twin
+runs against from_problem, operators must not modify their input nor any earlier state, same call twice; L - vehicle ids
+as labels, fresh (equal, not identical) int objects for ids >= 257; I - solve_vrptw call forms (tuples of length 3..8,
+tuple / list containers, vehicles as int / list / tuple, depot as list); S - line instances with 17 / 70 / 400 customers
+(one route > 256 stops); M - lengths x 2^20 .. 2^36, demands x 2^31 .. 2^40 (exact below 2^52), decimal geometry with
+tolerance; O - degree / n_routes / k / max_iter / max_no_improve corners and sweeps, on_progress; H - rare internal events
+read off the logs (insertion_cost fallback branch, stale arrival times, regret with < k options, sync_removal fallback,
+ALNS accept / reject / weight update ...) are counted and searched for until each has been seen.
 """
 import copy as _copy
 import json
@@ -267,8 +276,8 @@ def gen_big_seq_case(rng, n):
     ids = list(range(1, n + 1))
     un = sorted(rng.sample(ids, min(n, 6)))
     rest = [i for i in ids if i not in un]
-    third = (len(rest) + 2) // 3
-    routes = [rest[:third], rest[third:2 * third][::-1], rest[2 * third:]]
+    a, b = (2 * len(rest)) // 3, (5 * len(rest)) // 6  # one long route (crosses 257 stops for n = 400), two short ones
+    routes = [rest[:a], rest[a:b][::-1], rest[b:]]
     for c in inst["customers"]:  # a multi-vehicle customer sits on two routes
         if c["required_vehicles"] == 2 and c["id"] in routes[0]:
             routes[1].insert(len(routes[1]) // 2, c["id"])
@@ -1381,7 +1390,7 @@ def run_part(ctx: Ctx):
                  "state, judged after every operator), corners (degree / n_routes / k sweeps incl. 0 and > size), hand (states built or "
                  "re-built with the VRPState dataclass, no distance matrix; twin run from from_problem), state0 (random consistent "
                  "hand-built states incl. overloaded / late ones), scaled (lengths x 2^20..2^36, demands x 2^31..2^40), real (decimal "
-                 "geometry, tolerance 1e-9, no Coq), size17/65/300 (line instances, fresh int objects for ids); solve_vrptw with max_iter "
+                 "geometry, tolerance 1e-9, no Coq), size17/70/400 (line instances, one route with 2/3 of the customers, fresh int objects for ids); solve_vrptw with max_iter "
                  "0..40 (sweep 0..20, 99/100/101/205), call forms (tuples of length 3..8, tuple/list, vehicles int/list/tuple), "
                  "on_progress, repeated calls; non-trivial = a removal that removed customers is followed by an insertion that places "
                  "some (sequence) / at least one ALNS iteration ran (solve)")
@@ -1392,7 +1401,7 @@ def run_part(ctx: Ctx):
     for family, q, t in (("base", 60, 1500), ("corners", 20, 500), ("hand", 25, 400), ("state0", 25, 400), ("scaled", 12, 200),
                          ("real", 12, 200)):
         seq_cases += [gen_seq_case(rng, big, family) for _ in range(ctx.budget(q, t))]
-    for n, q, t in ((17, 2, 10), (65, 1, 4), (300, 1, 2)):
+    for n, q, t in ((17, 2, 10), (70, 1, 4), (400, 1, 2)):
         seq_cases += [gen_big_seq_case(rng, n) for _ in range(ctx.budget(q, t))]
     for family, q, t in (("base", 40, 800), ("forms", 15, 150), ("progress", 10, 100), ("scaled", 8, 100), ("real", 6, 60)):
         solve_cases += [gen_solve_case(rng, big, family) for _ in range(ctx.budget(q, t))]
